@@ -26,7 +26,9 @@ def load_known(pid):
     known, fixed = [], []
     path = os.path.join(VERIF, "known_findings.txt")
     if os.path.exists(path):
-        for line in open(path):
+        with open(path) as _f:
+            lines = _f.readlines()
+        for line in lines:
             line = line.strip()
             if not line or line.startswith("#"):
                 continue
